@@ -8,7 +8,7 @@
 (* and validation continues, so one run reports every rejection.           *)
 (* The orchestrator (bin/check) attributes failed conjuncts to properties. *)
 (***************************************************************************)
-EXTENDS Arith, Order, Json
+EXTENDS Arith, Order, Text, Conv, BigIntM, Json
 T == ndJsonDeserialize("trace.ndjson")
 VARIABLE l
 
@@ -80,8 +80,127 @@ Verdict_om(ev) ==
 \* ---------------- family "nd": NumDigits (C19) ----------------
 Verdict_nd(ev) == IF ev.panic # "" THEN {"panic"} ELSE Names(<< <<"numdigits", ev.nd = NumDigits(ev.b)>> >>)
 
+\* ---------------- family "t": text forms (C13 C14, parsing part of C01 C04 C07) ----------------
+WFParsed(d) == d.f \in {FIN, INF, SNAN, QNAN} /\ d.cs >= 0 /\ IsNat(d.c)
+               /\ d.e \in (-LIMIT)..LIMIT /\ (d.f = FIN => Adj(d) \in (-LIMIT)..LIMIT)
+Verdict_t(ev) ==
+  IF ev.panic # "" THEN {"panic"}
+  ELSE CASE ev.tk = "parse" ->
+         LET p == ParseSpec(ev.s)
+             cls == IF p.ok THEN LimitClass(p) ELSE "reject"
+         IN Names(<<
+              <<"accept",    (cls \in {"reject", "outside"} => ~ev.ok) /\ (cls = "inside" => ev.ok)>>,
+              <<"nilret",    (~ev.ok /\ cls \in {"reject", "outside"}) => ev.nilret>>,
+              <<"parse-val", (ev.ok /\ p.ok) => AbsEq(ev.res, p)>>,
+              <<"parse-wf",  ev.ok => WFParsed(ev.res)>> >>)
+       [] ev.tk = "ctxparse" ->
+         LET p == ParseSpec(ev.s)
+             cls == IF p.ok THEN LimitClass(p) ELSE "reject"
+             w == IF ~p.ok \/ cls # "inside" THEN Skip
+                  ELSE IF p.f = FIN THEN Rnd(ev.ctx, p.n, p.c, One, p.e)
+                  ELSE [k |-> "form", n |-> p.n, na |-> FALSE, c |-> <<>>, e |-> 0, fl |-> 0]
+         IN Names(<<
+              <<"accept",    (cls \in {"reject", "outside"} => ~ev.ok) /\ (cls = "inside" => ev.ok)>>,
+              <<"cp-val",    (ev.ok /\ cls = "inside") =>
+                                IF w.k = "form" THEN ev.res.f = p.f /\ ev.res.n = p.n ELSE ValueOK(w, ev.res)>>,
+              <<"cp-flags",  (ev.ok /\ cls = "inside" /\ w.k \notin {"form", "skip"}) =>
+                                (FlagsOK("round", w, ev.res, ev.fl) /\ FlagImpOK(ev.res, ev.fl))>>,
+              <<"cp-fits",   (ev.ok /\ cls = "inside") => (Fits(ev.ctx, ev.res) /\ ev.res.cs >= 0)>>,
+              <<"parse-wf",  ev.ok => WFParsed(ev.res)>> >>)
+       [] ev.tk = "text" ->
+         Names(<<
+              <<"text", ev.out = TextOf(ev.d, ev.verb)>>,
+              <<"rt",   /\ ev.ok
+                        /\ IF ev.verb = 102 THEN ev.res.f = ev.d.f /\ ev.res.n = ev.d.n /\ (ev.d.f = FIN => NumEq(ev.res.c, ev.res.e, ev.d.c, ev.d.e))
+                           ELSE AbsEq(ev.res, ev.d)>> >>)
+       [] ev.tk = "format" ->
+         LET v == IF ev.verb \in {118, 115} THEN 71 ELSE IF ev.verb = 70 THEN 102 ELSE ev.verb
+             fl == {ev.flags[i] : i \in 1..Len(ev.flags)}
+         IN Names(<< <<"format", ev.out = FmtPad(ev.d, fl, ev.width, TextOf(ev.d, v))>> >>)
+       [] OTHER -> {"unknown-text-event"}
+
+\* ---------------- family "cv": conversions (C17, C13) ----------------
+SameFlt(a, b) == a.cls = b.cls /\ (a.cls = "nan" \/ (a.n = b.n /\ (a.cls = "fin" => (a.m = b.m /\ a.k = b.k))))
+Verdict_cv(ev) ==
+  IF ev.panic # "" THEN {"panic"}
+  ELSE CASE ev.ck = "int64" ->
+         LET w == Int64Spec(ev.d) IN
+         Names(<< <<"int64", ev.ok = w.ok /\ (w.ok => (ev.v.c = w.c /\ (IsZero(w.c) \/ ev.v.n = w.n)))>>,
+                  <<"frame", SameRepr(ev.da, ev.d)>> >>)
+       [] ev.ck = "setint" ->
+         Names(<< <<"setint", ev.res.f = FIN /\ ev.res.n = (ev.v.n /\ ~IsZero(ev.v.c)) /\ ev.res.c = ev.v.c
+                              /\ ev.res.e = ev.e /\ ev.res.cs >= 0 /\ ev.err = "">> >>)
+       [] ev.ck = "float64" ->
+         Names(<< <<"float64", ev.d.f \in {FIN, INF} => NearestFloat(ev.d, ev.f)>>,
+                  <<"float64-nan", TRUE>> >>)
+       [] ev.ck = "setfloat" ->
+         Names(<< <<"setfloat-ok", ev.ok>>,
+                  <<"float-rt", ev.ok => SameFlt(ev.back, ev.f)>>,
+                  <<"setfloat-val", ev.ok =>
+                       CASE ev.f.cls = "nan" -> ev.res.f = QNAN
+                         [] ev.f.cls = "inf" -> ev.res.f = INF /\ ev.res.n = ev.f.n
+                         [] ev.f.cls = "zero" -> ev.res.f = FIN /\ IsZero(ev.res.c) /\ ev.res.n = ev.f.n
+                         [] OTHER -> ev.res.f = FIN /\ ev.res.n = ev.f.n /\ ev.res.cs >= 0
+                                     /\ NearestFin(ev.res.c, ev.res.e, ev.f.m, ev.f.k)>>,
+                  <<"shortest", (ev.ok /\ ev.f.cls = "fin" /\ ev.res.f = FIN /\ ~IsZero(ev.res.c)) => Shortest(ev.res, ev.f)>> >>)
+       [] ev.ck = "modf" ->
+         Names(<< <<"modf", ev.d.f = FIN => ModfOK(ev.d, ev.hasi, ev.res, ev.hasf, ev.res2)>>,
+                  <<"frame", SameRepr(ev.da, ev.d)>> >>)
+       [] ev.ck = "codec" ->
+         Names(<< <<"codec", ev.ok /\ ev.res.n = ev.d.n /\ ev.res.cs >= 0
+                             /\ (IF ev.d.f = SNAN THEN ev.res.f = QNAN ELSE ev.res.f = ev.d.f)
+                             /\ (ev.d.f = FIN => (ev.res.c = ev.d.c /\ ev.res.e = ev.d.e))>>,
+                  <<"frame", SameRepr(ev.da, ev.d)>> >>)
+       [] OTHER -> {"unknown-cv-event"}
+
+\* ---------------- family "bh": BigInt method histories with a math/big mirror (C16) ----------------
+ValOf(r) == SInt(r.n, r.c)
+StepVerdict(st, pre) ==        \* pre: sequence of signed integers, the register values before the step
+  LET x == pre[st.x + 1]  y == pre[st.y + 1]  z == st.z + 1  r2 == st.r + 1
+      post == [i \in 1..Len(st.post) |-> ValOf(st.post[i])]
+      both == st.panic # "" /\ st.mpanic # ""
+      written == IF st.m \in {"QuoRem", "DivMod"} THEN {z, r2} ELSE IF st.m \in Modifying THEN {z} ELSE {}
+      defined == HasSem(st.m) /\ ~(st.m \in DivLike /\ IsZ(y)) /\ ~(st.m = "Exp" /\ IsZ(x) /\ st.aux = 0)
+  IN IF both THEN {}
+     ELSE IF st.panic # "" \/ st.mpanic # "" THEN {"panic"}
+     ELSE Names(<<
+       <<"mirror", /\ \A i \in 1..Len(post) : post[i] = SInt(st.mpost[i].n, st.mpost[i].c)
+                   /\ st.ret.t = st.mret.t /\ st.ret.i = st.mret.i /\ st.ret.b = st.mret.b
+                   /\ st.ret.s = st.mret.s /\ SInt(st.ret.v.n, st.ret.v.c) = SInt(st.mret.v.n, st.mret.v.c)>>,
+       <<"frame",  \A i \in 1..Len(post) : i \notin written => post[i] = pre[i]>>,
+       <<"sem",    defined => /\ post[z] = Sem(st.m, x, y, st.aux, st.auxv)
+                              /\ (st.m \in {"QuoRem", "DivMod"} => post[r2] = Sem2(st.m, x, y))>>,
+       <<"sem-read", /\ (st.m = "Cmp" => st.ret.i = SCmp(pre[z], x))
+                     /\ (st.m = "CmpAbs" => st.ret.i = Cmp(pre[z].c, x.c))
+                     /\ (st.m = "Sign" => st.ret.i = SSign(pre[z]))
+                     /\ (st.m = "IsInt64" => st.ret.b = FitsInt64(pre[z]))
+                     /\ (st.m = "IsUint64" => st.ret.b = FitsUint64(pre[z]))
+                     /\ (st.m = "Int64" /\ FitsInt64(pre[z]) => SInt(st.ret.v.n, st.ret.v.c) = pre[z])
+                     /\ (st.m = "Uint64" /\ FitsUint64(pre[z]) => SInt(st.ret.v.n, st.ret.v.c) = pre[z])
+                     /\ (st.m = "String" => st.ret.s = (IF pre[z].n THEN <<45>> ELSE <<>>) \o DigitsOf(pre[z].c))
+                     /\ (st.m = "Sqrt" /\ ~x.n => IsSqrtOf(post[z], x))>>,
+       <<"zero",   \A i \in 1..Len(st.post) :
+                     LET p == st.post[i] IN
+                     /\ p.sg = (IF IsZero(p.c) THEN 0 ELSE IF p.n THEN -1 ELSE 1)
+                     /\ p.c0 = p.sg
+                     /\ (IsZero(p.c) => (~p.n /\ ~p.ns))>>,
+       <<"repr",   \A i \in 1..Len(st.post) :
+                     LET p == st.post[i] IN (~p.hp => p.fits) /\ ((~p.hp /\ IsZero(p.c)) => p.wz) /\ (p.ns => (~p.hp /\ p.n))>> >>)
+RECURSIVE HistVerdict(_, _, _, _)
+HistVerdict(steps, i, pre, acc) ==
+  IF i > Len(steps) THEN acc
+  ELSE LET st == steps[i]
+           v0 == StepVerdict(st, pre)
+           v == IF v0 = {} \/ PrintT(<<"STEP", i, st.m, st.z, st.x, st.y, st.r, st.aux, v0>>) THEN v0 ELSE v0
+           nxt == IF st.panic # "" \/ st.mpanic # "" THEN pre ELSE [j \in 1..Len(st.post) |-> ValOf(st.post[j])]
+       IN HistVerdict(steps, i + 1, nxt, acc \cup v)
+Verdict_bh(ev) == HistVerdict(ev.steps, 1, [i \in 1..Len(ev.init) |-> SInt(ev.init[i].n, ev.init[i].c)], {})
+
 Verdict(ev) ==
   CASE ev.k = "a" -> Verdict_a(ev)
+    [] ev.k = "bh" -> Verdict_bh(ev)
+    [] ev.k = "cv" -> Verdict_cv(ev)
+    [] ev.k = "t" -> Verdict_t(ev)
     [] ev.k = "nd" -> Verdict_nd(ev)
     [] ev.k = "o" -> Verdict_o(ev)
     [] ev.k = "om" -> Verdict_om(ev)
